@@ -343,7 +343,48 @@ func loadProgram(repo, hdir string, cc *CheckCfg) (*Program, error) {
 }
 
 // opaqueMethod returns handlers for methods of the executor's own fake types.
+// opaqueReg is the registry of engine-defined named types with modelled methods
+// (use Program.RegisterOpaque from intr_*.go files).
+type opaqueReg struct {
+	t       *types.Named
+	methods map[string]intrinsic
+}
+
+var opaqueRegs []*opaqueReg
+var opaqueMu sync.Mutex
+
+// RegisterOpaque returns the engine-defined named type `name` whose methods are modelled by the
+// given table; values of that type are created by intrinsics as Iface{t: typ, v: anyGoValue}.
+// Method handlers receive the receiver's Iface.v as args[0]. Idempotent per name.
+func (p *Program) RegisterOpaque(name string, methods map[string]intrinsic) types.Type {
+	opaqueMu.Lock()
+	defer opaqueMu.Unlock()
+	for _, r := range opaqueRegs {
+		if r.t.Obj().Name() == name {
+			return r.t
+		}
+	}
+	zp := types.NewPackage("zzopaque", "zzopaque")
+	t := types.NewNamed(types.NewTypeName(0, zp, name, nil), types.NewStruct(nil, nil), nil)
+	opaqueRegs = append(opaqueRegs, &opaqueReg{t: t, methods: methods})
+	return t
+}
+
+func findOpaque(t types.Type) *opaqueReg {
+	opaqueMu.Lock()
+	defer opaqueMu.Unlock()
+	for _, r := range opaqueRegs {
+		if types.Type(r.t) == t {
+			return r
+		}
+	}
+	return nil
+}
+
 func (p *Program) opaqueMethod(t types.Type, name string) intrinsic {
+	if r := findOpaque(t); r != nil {
+		return r.methods[name]
+	}
 	if hashNamed != nil && t == types.Type(hashNamed) {
 		return hashMethod(name)
 	}
@@ -376,6 +417,14 @@ func (p *Program) opaqueMethod(t types.Type, name string) intrinsic {
 }
 
 func (p *Program) opaqueImplements(t types.Type, it *types.Interface) bool {
+	if r := findOpaque(t); r != nil {
+		for i := 0; i < it.NumMethods(); i++ {
+			if r.methods[it.Method(i).Name()] == nil {
+				return false
+			}
+		}
+		return true
+	}
 	if hashNamed != nil && t == types.Type(hashNamed) {
 		for i := 0; i < it.NumMethods(); i++ {
 			if hashMethod(it.Method(i).Name()) == nil {
